@@ -193,7 +193,7 @@ def handle1 : List String → String
     | some ver, some prev, some merkle, some time, some bits, some nonce, some status, some height =>
       if prev.length ≠ 32 ∨ merkle.length ≠ 32 then "bad-op" else
       let hd : Header := ⟨ver, prev, merkle, time, bits, nonce⟩
-      let key := natBE height 4 ++ BV.Sha256.hash2List (serializeHeader hd)
+      let key := blockIndexKey (BV.Sha256.hash2List (serializeHeader hd)) height
       s!"{listToHex key} {listToHex (serializeBlockRow hd (UInt8.ofNat status))}"
     | _, _, _, _, _, _, _, _ => "bad-op"
   | ["unrow", h] => match hexToList? h with
